@@ -205,9 +205,14 @@ class Optic:
             surface_number (int): The index of the surface.
         """
         positions = self.surface_group.positions
-        delta_t = value - positions[surface_number+1] + \
-            positions[surface_number]
-        positions[surface_number+1:] += delta_t
+        if surface_number == 0:
+            # object distance: only the object moves (also valid when the
+            # object was at infinity, where the general formula gives NaN)
+            positions[0] = positions[1] - value
+        else:
+            delta_t = value - positions[surface_number+1] + \
+                positions[surface_number]
+            positions[surface_number+1:] += delta_t
         positions -= positions[1]  # force surface 1 to be at zero
         for k, surface in enumerate(self.surface_group.surfaces):
             surface.geometry.cs.z = float(np.ravel(positions[k])[0])
